@@ -312,6 +312,25 @@ def run(line):
                   == [100 + i for i in range(len(scope._sort_param_metavars))])
         unused = bool(scope._evars or scope._svars)
         return {'res': 'OK %s | %s | %s' % (pat_str(pat), names, snames) + ('' if ids_ok and not unused else ' !ids')}
+    if cmd in ('RULES', 'RULES2'):
+        from proof_generation.k.kore_convertion.language_semantics import KRewritingRule
+        sig = p_sig(st)
+        axs = [p_kore(st) for _ in range(st.int())]
+        try:
+            sem = LanguageSemantics.from_kore_definition(definition(sig, axs, cmd == 'RULES2'))
+        except Exception as e:  # noqa: BLE001
+            return {'res': 'NONE', 'exc': '%s: %s' % (type(e).__name__, str(e)[:200]), 'stage': 'load'}
+        parts = []
+        for o in range(len(axs)):
+            try:
+                ax = sem.get_axiom(o)
+            except ValueError:
+                continue
+            scope = sem._cached_axiom_scopes[o]
+            parts.append('%d %s %s | %s | %s' % (o, 'R' if isinstance(ax, KRewritingRule) else 'Q', pat_str(ax.pattern),
+                                                 ','.join(hexs(n) for n in scope._metavars),
+                                                 ','.join(hexs(n) for n in scope._sort_param_metavars)))
+        return {'res': 'OK %d [%s]' % (len(parts), ' ; '.join(parts))}
     if cmd == 'HINTS':
         from proof_generation.k.kore_convertion.language_semantics import KEquationalRule, KRewritingRule
         from proof_generation.k.kore_convertion.rewrite_steps import RewriteStepExpression
